@@ -354,7 +354,7 @@ pub fn run_grid(thorough: bool, threads: usize) -> (GridStats, Vec<Failure>) {
                     let sc = &scs[i];
                     let r = match catch(|| run_scenario(sc)) {
                         Ok(r) => r,
-                        Err(p) => Err(Failure::new(format!("harness-panic:{}", crate::driver::normalize_sig(&p)), p)),
+                        Err(p) => Err(crate::driver::panic_failure(p, &format!("gate scenario {sc:?}"))),
                     };
                     match r {
                         Ok(o) => {
